@@ -7,6 +7,7 @@ import (
 	"encoding/json"
 	"fmt"
 	"math"
+	"strings"
 
 	"github.com/Azbesciak/RealDecisionMaker/lib/model"
 )
@@ -27,7 +28,11 @@ type stubBias struct {
 func (s *stubBias) Identifier() string { return s.name }
 func (s *stubBias) Apply(_, current *model.DecisionMakingParams, _ *model.BiasProps, _ *model.BiasListener) *model.BiasedResult {
 	*s.log = append(*s.log, s.name)
-	return &model.BiasedResult{DMP: current, Props: s.name}
+	// leave a visible mark in the state handed on: one more not-considered alternative named after the bias
+	nc := append(append([]model.AlternativeWithCriteria{}, current.NotConsideredAlternatives...),
+		model.AlternativeWithCriteria{Id: "mark-" + s.name, Criteria: model.Weights{"c": 0}})
+	return &model.BiasedResult{DMP: &model.DecisionMakingParams{NotConsideredAlternatives: nc, ConsideredAlternatives: current.ConsideredAlternatives,
+		Criteria: current.Criteria, MethodParameters: current.MethodParameters}, Props: s.name}
 }
 
 var probGrid = []float64{0, 0.001, 0.25, 0.5, 0.75, 0.999, 1}
@@ -166,18 +171,39 @@ func init() {
 				var dm model.DecisionMaker
 				json.Unmarshal(js, &dm)
 				var choice *model.DecisionMakerChoice
-				msg := recoverErr(func() { choice = dm.MakeDecision(funcs, biasListeners, &stubs, seededGen) })
+				capt, cfs := capturing("weightedSum")
+				msg := recoverErr(func() { choice = dm.MakeDecision(cfs, biasListeners, &stubs, seededGen) })
 				m := Meta{Case: c, Stage: "process-biases", Input: J{"request": body, "available": avail}, Key: string(js) + sxString(Strs(avail)), Trivial: k == 0}
 				o.count("stub-biases=" + itoa(k))
+				// the marks that reached the method = the effects that are still in force
+				var marks []string
+				if msg == "" && capt.got != nil {
+					for _, a := range capt.got.NotConsideredAlternatives {
+						if strings.HasPrefix(a.Id, "mark-") {
+							marks = append(marks, strings.TrimPrefix(a.Id, "mark-"))
+						}
+					}
+				}
 				exp := resSX(msg, func() SX {
 					outs, js := biasOutSX(choice.Biases)
-					m.GoOut = js
-					return L(outs, Strs(log))
+					m.GoOut = J{"biases": js, "state_marks_at_evaluate": marks}
+					return L(outs, Strs(marks))
 				})
 				o.Corr(m, L(A("process-biases"), Strs(avail), reqBiasSX(bl), Nums(draws(seed, 8))), okSX(exp))
 				if msg == "" {
 					outs, _ := biasOutSX(choice.Biases)
 					o.Spec(m, L(A("check-c08"), reqBiasSX(bl), outs, Nums(draws(seed, 8))))
+					// the state the method receives carries exactly the marks of the biases that fired, in order
+					var fired []string
+					for _, b := range choice.Biases {
+						if bp := b.(model.BiasParams); bp.Props != nil {
+							fired = append(fired, bp.Name)
+						}
+					}
+					ms := m
+					ms.Stage = "effects-of-fired-biases-in-force"
+					o.Oracle(ms, strings.Join(fired, ",") == strings.Join(marks, ",") && strings.Join(log, ",") == strings.Join(fired, ","),
+						"the state handed to the method does not carry exactly the effects of the biases that fired (fired: "+strings.Join(fired, ",")+"; in force: "+strings.Join(marks, ",")+")")
 				} else {
 					o.count("stub-rejected")
 				}
@@ -267,6 +293,19 @@ func init() {
 						// a request that was accepted stays accepted when one bias is switched off... not claimed; skip
 						o.count("extreme-rejected")
 					}
+				}
+				// oracle 2b: a trailing entry that cannot fire changes nothing: same result as without it
+				vt := cloneJ(q.Body)
+				ent := cloneJ(J{"b": enabled})["b"].([]interface{})
+				ent = append(ent, J{"name": "preferenceReversal", "applyProbability": 0, "props": J{"ratio": 1}})
+				vt["biases"] = ent
+				vb := cloneJ(q.Body)
+				vb["biases"] = cloneJ(J{"b": enabled})["b"]
+				stA, respA := decideBody(vt)
+				stB, respB := decideBody(vb)
+				m.Stage = "trailing-non-firing-changes-nothing"
+				if stA == 200 && stB == 200 {
+					o.Oracle(m, bytes.Equal(resultOf(respA), resultOf(respB)), "appending a bias with probability 0 changed the result")
 				}
 				// oracle 3: an entry with probability 0 changes nothing: swapping it for another p=0 bias keeps the result
 				v4 := cloneJ(q.Body)
